@@ -5,6 +5,9 @@ actions 0..3.  Sokoban has no action mask (no C04).
 -/
 import JumanjiModel.Env.Sokoban.Lemmas
 import JumanjiModel.Env.Sokoban.BoundsLemmas
+import JumanjiModel.Env.Sokoban.GeneratorLemmas
+import JumanjiModel.Env.Sokoban.RewardLemmas
+import JumanjiModel.Gen.SokobanLevels
 open Jm Jx Sokoban
 
 namespace Props.C05
@@ -40,7 +43,97 @@ theorem sokoban_conserved (rnd : Rat → Rat) (cfg : Cfg) (s : State) (a : Nat) 
   exact (Sokoban.spec_shaped cfg.n s a hc.2.1).2
 
 example : Consistent 3 ⟨[[1,2,2],[0,2,2],[0,0,0]], [[0,4,4],[3,4,4],[0,0,0]], (1, 0), 0⟩ := by decide
+
+/-- whole episode, by induction from `sokoban_step_consistent`: every state reached from a consistent board by ANY
+sequence of actions 0..3 (`runState` applies the L1 `step` repeatedly) is consistent -/
+theorem sokoban_run_consistent (rnd : Rat → Rat) (cfg : Cfg) (s : State) (as : List Int) (ha : ValidActions as)
+    (hc : Consistent cfg.n s) : Consistent cfg.n (runState rnd cfg s as) :=
+  Sokoban.run_consistent rnd cfg s as ha hc
+
+/-- whole episode: walls and targets never change (so the number of targets stays what it was), there are exactly 4
+boxes and exactly one AGENT cell in every state of the episode, and that cell is `agent_location` -/
+theorem sokoban_run_conserved (rnd : Rat → Rat) (cfg : Cfg) (s : State) (as : List Int) (ha : ValidActions as)
+    (hc : Consistent cfg.n s) :
+    (runState rnd cfg s as).fgrid = s.fgrid ∧
+    countCells cfg.n (runState rnd cfg s as).vgrid BOX = nBoxes ∧
+    countCells cfg.n (runState rnd cfg s as).vgrid AGENT = 1 ∧
+    at' (runState rnd cfg s as).vgrid (runState rnd cfg s as).agent = AGENT ∧
+    countCells cfg.n (runState rnd cfg s as).fgrid TARGET = countCells cfg.n s.fgrid TARGET :=
+  Sokoban.run_conserved rnd cfg s as ha hc
+
+/-- the step counter of the state after `as` is the number of steps played -/
+theorem sokoban_run_step_count (rnd : Rat → Rat) (cfg : Cfg) (s : State) (as : List Int) :
+    (runState rnd cfg s as).stepCount = s.stepCount + as.length := Sokoban.runState_stepCount rnd cfg s as
+
+-- a non-trivial play: a push, a blocked push and a walk on a consistent 3×3 board
+example : ValidActions [1, 1, 2, 3] ∧
+    Consistent 3 ⟨[[1,2,2],[0,2,2],[0,0,0]], [[0,4,4],[3,4,0],[0,4,0]], (1, 0), 0⟩ ∧
+    (runState id ⟨3, 9, true⟩ ⟨[[1,2,2],[0,2,2],[0,0,0]], [[0,4,4],[3,4,0],[0,4,0]], (1, 0), 0⟩ [1, 1, 2, 3]).vgrid
+      = [[0,4,4],[3,0,4],[0,4,0]] := by decide +kernel
 end Props.C07
+
+namespace Props.C10
+/-- certificate ⇒ advertised invariants of a generated level: the board is `Consistent` (one agent at
+`agent_location`, 4 boxes, legal encodings, nothing inside a wall), it has 4 targets, exactly one AGENT cell, no box
+stands on a target (so the level is not already solved), and the step counter is 0 -/
+theorem sokoban_cert_consistent (n : Nat) (s : State) (h : LevelCert n s) :
+    Consistent n s ∧ countCells n s.fgrid TARGET = nBoxes ∧ countCells n s.vgrid BOX = nBoxes ∧
+    countCells n s.vgrid AGENT = 1 ∧ boxesOnTarget n s = 0 ∧ s.stepCount = 0 :=
+  ⟨Sokoban.cert_consistent h, h.2.2.2.2.1, h.2.2.2.1, h.2.2.1, Sokoban.cert_boxesOnTarget h, h.2.2.2.2.2.2.2.2⟩
+
+/-- `ToyGenerator` (transliterated: `convert_level_to_array` on its two ASCII levels, `get_agent_coordinates`, the draw
+is the game index): for EVERY valid draw it produces a level, and the level satisfies the certificate for
+GRID_SIZE = 10 (kernel evaluation of the decidable certificate on both levels) -/
+theorem sokoban_toy_cert (idx : Nat) (h : toyValidDraw idx) : ∃ s, toyGenerate idx = some s ∧ LevelCert 10 s :=
+  Sokoban.toy_cert idx h
+
+/-- `SimpleSolveGenerator` (no randomness) produces a level that satisfies the certificate -/
+theorem sokoban_simple_cert : ∃ s, simpleGenerate = some s ∧ LevelCert 10 s := Sokoban.simple_cert
+
+/-- the two toy levels are different states (the generator depends on its draw) -/
+theorem sokoban_toy_levels_differ : toyGenerate 0 ≠ toyGenerate 1 := Sokoban.toy_levels_differ
+
+/-- every state of every episode on a shipped toy level — any draw, any actions 0..3, any length — is consistent,
+keeps the level's walls and targets, exactly 4 boxes and exactly one agent -/
+theorem sokoban_toy_run_consistent (rnd : Rat → Rat) (cfg : Cfg) (hn : cfg.n = 10) (idx : Nat) (s : State)
+    (hg : toyGenerate idx = some s) (as : List Int) (ha : ValidActions as) :
+    Consistent cfg.n (runState rnd cfg s as) ∧ (runState rnd cfg s as).fgrid = s.fgrid ∧
+    countCells cfg.n (runState rnd cfg s as).vgrid BOX = nBoxes ∧
+    countCells cfg.n (runState rnd cfg s as).vgrid AGENT = 1 := by
+  have hc : Consistent cfg.n s := by rw [hn]; exact Sokoban.cert_consistent (Sokoban.toy_cert_of_eq hg)
+  have h := Sokoban.run_conserved rnd cfg s as ha hc
+  exact ⟨Sokoban.run_consistent rnd cfg s as ha hc, h.1, h.2.1, h.2.2.1⟩
+
+/-- the same for the level of `SimpleSolveGenerator` -/
+theorem sokoban_simple_run_consistent (rnd : Rat → Rat) (cfg : Cfg) (hn : cfg.n = 10) (s : State)
+    (hg : simpleGenerate = some s) (as : List Int) (ha : ValidActions as) :
+    Consistent cfg.n (runState rnd cfg s as) ∧ (runState rnd cfg s as).fgrid = s.fgrid ∧
+    countCells cfg.n (runState rnd cfg s as).vgrid BOX = nBoxes ∧
+    countCells cfg.n (runState rnd cfg s as).vgrid AGENT = 1 := by
+  have hc : Consistent cfg.n s := by rw [hn]; exact Sokoban.cert_consistent (Sokoban.simple_cert_of_eq hg)
+  have h := Sokoban.run_conserved rnd cfg s as ha hc
+  exact ⟨Sokoban.run_consistent rnd cfg s as ha hc, h.1, h.2.1, h.2.2.1⟩
+
+/-- the level table GENERATED from the repository (Gen/SokobanLevels.lean, by harness/translators_sokoban.py: the
+ASCII rows read from generator.py and the numeric states the real `convert_level_to_array` /
+`get_agent_coordinates` build from them) coincides with the hand transliteration: same ASCII levels in the same order,
+and `toyGenerate` / `simpleGenerate` compute exactly the states the real functions computed -/
+theorem sokoban_level_table_eq :
+    Gen.toyAscii = toyLevels ∧ Gen.toyStates.map some = [toyGenerate 0, toyGenerate 1] ∧
+    Gen.simpleAscii = [simpleLevel] ∧ Gen.simpleStates.map some = [simpleGenerate] := by decide +kernel
+
+/-- every state of the generated table satisfies the certificate -/
+theorem sokoban_level_table_cert : ∀ s ∈ Gen.toyStates ++ Gen.simpleStates, LevelCert 10 s := by decide +kernel
+
+-- the certificate on a small hand-made level, and a level it rejects (the agent stands on a target)
+example : LevelCert 4 ⟨[[1,2,2,0],[0,2,2,0],[0,0,0,0],[0,0,0,1]], [[0,0,0,0],[3,0,0,4],[4,4,4,0],[0,0,0,0]], (1, 0), 0⟩ := by
+  decide
+example : ¬ LevelCert 4 ⟨[[1,2,2,0],[2,0,2,0],[0,0,0,0],[0,0,0,1]], [[0,0,0,0],[3,0,0,4],[4,4,4,0],[0,0,0,0]], (1, 0), 0⟩ := by
+  decide
+-- the SimpleSolve level is solved by Up, (Down, Right, Up)×3: the model's episode on the transliterated level
+example : (simpleGenerate.map (fun s => levelComplete (runState id ⟨10, 120, true⟩ s [0, 2, 1, 0, 2, 1, 0, 2, 1, 0]))) = some true := by
+  decide +kernel
+end Props.C10
 
 namespace Props.C09
 /-- L1 = L2: the transliterated `step` yields exactly the successor prescribed by the rules — stay when
@@ -69,6 +162,114 @@ theorem sokoban_noop_iff_illegal (n : Nat) (s : State) (a : Nat) (ha : a < 4)
 
 -- a push: agent at (1,0) moves right into the box at (1,1); the cell behind, (1,2), is free
 example : pushes 3 ⟨[[1,2,2],[0,2,2],[0,0,0]], [[0,4,4],[3,4,0],[0,4,0]], (1, 0), 0⟩ 1 := by decide
+
+/-- reward of ONE step, any state, any action (transliteration of `reward.py`, `count_targets` = L1 count): the
+dense reward is `rnd (k + rnd (−0.1))` with the integer
+`k = (boxes on target after − before)·SINGLE_BOX_BONUS + 10·[successor solved]`; the sparse reward is `10·[successor solved]` -/
+theorem sokoban_step_reward (rnd : Rat → Rat) (cfg : Cfg) (s : State) (a : Int) :
+    (step rnd cfg s a).2.reward =
+      [if cfg.dense then
+         rnd ((((countTargets (step rnd cfg s a).1 : Int) - (countTargets s : Int) +
+                10 * (if levelComplete (step rnd cfg s a).1 then 1 else 0) : Int) : Rat) + rnd (-1 / 10))
+       else ((10 * (if levelComplete (step rnd cfg s a).1 then 1 else 0) : Int) : Rat)] := by
+  rw [Sokoban.step_reward]
+  cases hd : cfg.dense
+  · rw [Sokoban.reward_sparse]; simp
+  · rw [Sokoban.reward_dense]; simp [Sokoban.gain]
+
+/-- the same in the documented terms, from a consistent board with an action 0..3: the box term is `pushGain`
+(+1 iff the move pushes a box ONTO a target, −1 iff it pushes a box OFF a target, 0 otherwise: walk, blocked move,
+push target→target or floor→floor), the bonus 10 is paid iff all boxes are on targets in the successor prescribed by
+the rules, the step penalty is −0.1 -/
+theorem sokoban_step_reward_rules (rnd : Rat → Rat) (cfg : Cfg) (hd : cfg.dense = true) (s : State) (a : Nat)
+    (ha : a < 4) (hc : Consistent cfg.n s) :
+    (step rnd cfg s a).2.reward =
+      [rnd (((pushGain cfg.n s a + (if boxesOnTarget cfg.n (stepSpec cfg.n s a) = nBoxes then 10 else 0) : Int) : Rat)
+        + rnd (-1 / 10))] := Sokoban.step_reward_rules rnd cfg hd s a ha hc
+
+/-- a step changes the number of boxes on targets by exactly `pushGain` ∈ {−1, 0, 1} -/
+theorem sokoban_step_box_change (n : Nat) (s : State) (a : Nat) (ha : a < 4) (hc : Consistent n s) :
+    (boxesOnTarget n (stepSpec n s a) : Int) - (boxesOnTarget n s : Int) = pushGain n s a ∧
+    -1 ≤ pushGain n s a ∧ pushGain n s a ≤ 1 :=
+  ⟨Sokoban.spec_boxes_change n s a ha hc, Sokoban.pushGain_range n s a⟩
+
+-- a push onto a target (+1) and a push off a target (−1) on a consistent 3×3 board
+example : Consistent 3 ⟨[[1,2,0],[0,2,2],[2,0,0]], [[0,0,0],[3,4,0],[4,4,4]], (1, 0), 0⟩ ∧
+    pushGain 3 ⟨[[1,2,0],[0,2,2],[2,0,0]], [[0,0,0],[3,4,0],[4,4,4]], (1, 0), 0⟩ 1 = 0 ∧
+    pushGain 3 ⟨[[1,2,0],[0,0,2],[2,0,0]], [[0,0,0],[3,4,0],[4,4,4]], (1, 0), 0⟩ 1 = 1 ∧
+    pushGain 3 ⟨[[1,2,0],[0,2,0],[2,0,0]], [[0,0,0],[3,4,0],[4,4,4]], (1, 0), 0⟩ 1 = -1 := by decide
+
+/-- telescoped DENSE return in exact arithmetic (`rnd = id`), for EVERY start state and EVERY action sequence
+(no hypothesis at all): return = −0.1·steps + (boxes on target at the end − at the start) + 10·(number of steps whose
+successor state is solved).  `step` is not absorbing (neither in the model nor in `env.py`): a step taken from a
+solved state whose successor is still solved is paid the bonus again, hence the count instead of `[solved]`. -/
+theorem sokoban_episode_return (cfg : Cfg) (hd : cfg.dense = true) (s : State) (as : List Int) :
+    runReturn id cfg s as =
+      (-1 / 10 : Rat) * (as.length : Rat) +
+      (((countTargets (runState id cfg s as) : Int) - (countTargets s : Int) : Int) : Rat) +
+      10 * ((solvedSteps id cfg s as : Nat) : Rat) := Sokoban.run_return_dense cfg hd s as
+
+/-- in an episode in the sense of the API (`ProperEpisode`: no `step` after a LAST timestep; LAST ⇐ solved or time
+limit) the bonus is paid at most once, on the last step: the number of solved successors is `[final state solved]` -/
+theorem sokoban_solved_steps_proper (rnd : Rat → Rat) (cfg : Cfg) (s : State) (as : List Int)
+    (hp : ProperEpisode rnd cfg s as) :
+    solvedSteps rnd cfg s as = if as ≠ [] ∧ levelComplete (runState rnd cfg s as) = true then 1 else 0 :=
+  Sokoban.solvedSteps_proper rnd cfg s as hp
+
+/-- the literal documented form for a proper, non-empty episode (exact arithmetic, dense reward):
+return = −0.1·steps + (boxes on target at end − at start) + 10·[solved] -/
+theorem sokoban_episode_return_proper (cfg : Cfg) (hd : cfg.dense = true) (s : State) (as : List Int)
+    (hne : as ≠ []) (hp : ProperEpisode id cfg s as) :
+    runReturn id cfg s as =
+      (-1 / 10 : Rat) * (as.length : Rat) +
+      (((countTargets (runState id cfg s as) : Int) - (countTargets s : Int) : Int) : Rat) +
+      10 * (if levelComplete (runState id cfg s as) then 1 else 0) := by
+  rw [Sokoban.run_return_dense cfg hd s as, Sokoban.solvedSteps_proper id cfg s as hp]
+  cases h : levelComplete (runState id cfg s as) <;> simp [hne]
+
+/-- the same with the rule-level count `boxesOnTarget` for a consistent start and actions 0..3 -/
+theorem sokoban_episode_return_rules (cfg : Cfg) (hd : cfg.dense = true) (s : State) (as : List Int)
+    (hc : Consistent cfg.n s) (ha : ValidActions as) :
+    runReturn id cfg s as =
+      (-1 / 10 : Rat) * (as.length : Rat) +
+      (((boxesOnTarget cfg.n (runState id cfg s as) : Int) - (boxesOnTarget cfg.n s : Int) : Int) : Rat) +
+      10 * ((solvedSteps id cfg s as : Nat) : Rat) := by
+  have h := Sokoban.run_consistent id cfg s as ha hc
+  rw [Sokoban.run_return_dense cfg hd s as, Sokoban.countTargets_eq cfg.n s hc.1 hc.2.1,
+    Sokoban.countTargets_eq cfg.n _ h.1 h.2.1]
+
+/-- with float32 rounding the return is not the exact telescoped number, but every step reward is
+`rnd (k_t + rnd (−0.1))` for integers `k_t` (`runGains`) whose sum telescopes exactly — any `rnd`, state, actions -/
+theorem sokoban_episode_return_rounded (rnd : Rat → Rat) (cfg : Cfg) (hd : cfg.dense = true) (s : State) (as : List Int) :
+    runRewards rnd cfg s as = (runGains rnd cfg s as).map (fun k => rnd (((k : Int) : Rat) + rnd (-1 / 10))) ∧
+    (runGains rnd cfg s as).sum =
+      (countTargets (runState rnd cfg s as) : Int) - (countTargets s : Int) + 10 * (solvedSteps rnd cfg s as : Int) :=
+  ⟨Sokoban.runRewards_dense rnd cfg hd s as, Sokoban.runGains_sum rnd cfg s as⟩
+
+/-- SPARSE return: 10 per step whose successor is solved — any rounding, state, action sequence -/
+theorem sokoban_episode_return_sparse (rnd : Rat → Rat) (cfg : Cfg) (hd : cfg.dense = false) (s : State) (as : List Int) :
+    runReturn rnd cfg s as = 10 * ((solvedSteps rnd cfg s as : Nat) : Rat) := Sokoban.run_return_sparse rnd cfg hd s as
+
+/-- the form "10·[solved]" is FALSE for arbitrary action sequences: `step` accepts a solved state and pays the bonus on
+every step whose successor is solved.  3×3 board with the 4 boxes on the 4 targets, two blocked moves (Up):
+return = −0.2 + 0 + 20, not −0.2 + 0 + 10.  (`env.py` behaves the same; calling `step` after LAST is outside the
+API protocol, so this is a limitation of the literal statement, not a defect.) -/
+theorem sokoban_episode_return_literal_witness :
+    ∃ (cfg : Cfg) (s : State) (as : List Int), cfg.dense = true ∧ Consistent cfg.n s ∧ ValidActions as ∧
+      runReturn id cfg s as ≠
+        (-1 / 10 : Rat) * (as.length : Rat) +
+        (((countTargets (runState id cfg s as) : Int) - (countTargets s : Int) : Int) : Rat) +
+        10 * (if levelComplete (runState id cfg s as) then 1 else 0) :=
+  ⟨⟨3, 100, true⟩, ⟨[[1,2,2],[0,2,2],[0,0,0]], [[0,4,4],[3,4,4],[0,0,0]], (1, 0), 0⟩, [0, 0], by decide +kernel⟩
+
+-- a proper episode whose last step pushes the fourth box onto its target (4×4; Down, Up, Left): it is solved and
+-- the return is −0.3 + 1 + 10
+example :
+    let cfg : Cfg := ⟨4, 100, true⟩
+    let s : State := ⟨[[2,2,0,0],[2,2,0,0],[0,0,0,0],[0,0,0,0]], [[4,4,0,0],[4,0,4,3],[0,0,0,0],[0,0,0,0]], (1, 3), 0⟩
+    Consistent cfg.n s ∧ ProperEpisode id cfg s [2, 0, 3] ∧ levelComplete (runState id cfg s [2, 0, 3]) = true ∧
+      runReturn id cfg s [2, 0, 3] = 107 / 10 := by
+  decide +kernel
 end Props.C09
 
 namespace Props.C11
